@@ -285,6 +285,22 @@ class G:
                 yield self.wide_boundary()
                 continue
             k = r.randrange(16)
+            if r.random() < 0.03:
+                # the integer dividend at a limit of its type (i128::MIN included) by ±1, ±2, ±3 as Decimal (any scale) or as integer,
+                # few result digits: `i128::MIN / -1` is the one machine division that overflows (must be an overflow signal)
+                ty = r.choice(list(INT_TYPES)); lo_, hi_ = INT_TYPES[ty]
+                i = r.choice([lo_, lo_, hi_, lo_ + 1]); nn = r.choice([0, 0, 0, 1, 2, 18])
+                if r.random() < 0.5:
+                    j = max(lo_, min(hi_, r.choice([-1, -1, 1, -2, 3])))
+                    yield f"{self.mode()} iidivr {ty} {r.choice(FORMS4)} {i} {j} {nn}"
+                else:
+                    q = r.choice([0, 0, 0, 1, 5, 18]); b = r.choice([-1, -1, 1, -2, 3, -(10 ** q)])
+                    op = r.choice(["idivr", "idivr", "iquant"])
+                    if op == "idivr":
+                        yield f"{self.mode()} idivr {ty} l {r.choice(FORMS4)} {b} {q} {i} {nn}"
+                    else:
+                        yield f"{self.mode()} iquant {ty} l vv {b} {q} {i}"
+                continue
             if k < 4:  # mul_rounded
                 (a, p), (b, q) = self.dec(), self.dec()
                 nn = self.nfd()
@@ -955,6 +971,15 @@ class G:
                     m = r.randrange(1, 2 ** 126)
                     a = MAX - r.randrange(0, 3); b = m + r.randrange(-2, 3)
                 yield f"heven kw256 {a} {b} {m}"
+            elif k == 11 and r.random() < 0.5:
+                # the integer divisor i128::MIN — magnitude 2^127, the one divisor that needs no normalisation shift — under a dividend
+                # that takes the 256-bit path (coefficient · 10^18 does not fit), through the public operators
+                a = self.clamp(r.randrange(2 ** 64, 2 ** 127)) * r.choice([1, -1]); p = r.randrange(0, 19)
+                op = r.choice(["idiv", "icdiv", "idivr"])
+                if op == "idivr":
+                    yield f"{self.mode()} idivr i128 r vv {a} {p} {-MAX - 1} {r.randrange(max(0, p - 1), 19)}"
+                else:
+                    yield f"{self.mode()} {op} i128 r vv {a} {p} {-MAX - 1}"
             else:  # through the public operators on the wide path
                 p = r.randrange(10, 19); q = r.randrange(10, 19)
                 a = self.clamp(r.randrange(2 ** 90, 2 ** 127)) * r.choice([1, -1])
